@@ -50,6 +50,10 @@ def cases(tier, seed):
     for link in ("translation", "rotation", "symmetry"):
         for me in METHODS:
             out.append({"grid": "h221", "jitter": 1, "clamps": [[0, "plane" if link != "rotation" else "radial"]], "link": link, "method": me, "iterations": 2, "frame": 0 if link != "translation" else 4})
+    # one leader with two followers (2x2x2: interior vertex leads the centres of the bottom and the top face)
+    for me in METHODS:
+        for cl in ("line", "plane"):
+            out.append({"grid": "h222", "jitter": 1, "clamps": [[0, cl]], "link": "translation2", "method": me, "iterations": 2, "frame": 4 if cl == "line" else 0})
     # two boxes: a vertex on the shared face
     for cl in ("plane", "line", "surface"):
         out.append({"grid": "h211", "jitter": 2, "clamps": [[0, cl]], "link": None, "method": "SLSQP", "iterations": 2, "frame": 4})
@@ -100,12 +104,17 @@ def build(case):
         P, cells, ids = hex_points(nx, ny, nz)
         if g == "h222":
             movable = [ids[(1, 1, 1)]]
+            if case.get("link") == "translation2":
+                movable += [ids[(1, 1, 0)], ids[(1, 1, 2)]]
         elif g == "h221":
             movable = [ids[(1, 1, 1)], ids[(1, 1, 0)]]
         else:
             movable = [ids[(1, 0, 1)]]
         for k, v in enumerate(movable):
             d = jitter_vec(k + 2) * lvl
+            if case.get("link") == "translation2":
+                d = jitter_vec(2) * lvl  # leader and followers are displaced alike
+                d[2] = 0.0
             if g == "h221":
                 d[2] = 0.0  # stay on the top / bottom plane
             if g == "h211":
@@ -238,7 +247,14 @@ def run_case(case):
             opt.add_clamp(cl)
             clamped[to_grid[v]] = (cl, dist, cname)
         follower = None
-        if case["link"]:
+        followers2 = []
+        if case["link"] == "translation2":
+            lp = P[movable[0]].copy()
+            for fv in movable[1:]:
+                fp = P[fv].copy()
+                opt.add_link(cb.TranslationLink(lp, fp))
+                followers2.append((to_grid[movable[0]], to_grid[fv], fp - lp))
+        elif case["link"]:
             leader_v = movable[0]
             fol_v = movable[1]
             lp, fp = P[leader_v].copy(), P[fol_v].copy()
@@ -307,6 +323,10 @@ def run_case(case):
     moved_ok = set(clamped)
     if follower:
         moved_ok.add(follower[1])
+    for li, fi, offset in followers2:
+        moved_ok.add(fi)
+        if np.linalg.norm((final[fi] - final[li]) - offset) > 1e-7:
+            bad("follower-relation-broken", f"translation link to grid point {fi}: follower off by {np.linalg.norm((final[fi] - final[li]) - offset):.3g}")
     for i in range(len(final)):
         if i not in moved_ok and not np.array_equal(final[i], initial[i]):
             bad("unclamped-vertex-moved", f"grid point {i} moved by {np.linalg.norm(final[i] - initial[i]):.3g}", point=i)
